@@ -68,6 +68,9 @@ GENERATED = [
     "o := {m: m{|a|\n  defer a.p\n  return a if a\n  a\n}}\no.m(\n  1\n)\n",
     "it := <{|i|\n  yield i if i < 3\n  recur(i + 1)\n}>\nit.new(0)\n  |@{\\}\n",
     "s := \"a#{ 1 +\n 2 }b\"\n`raw\nstr`\n# tail comment",
+    # CRLF sources (the native sources are CRLF) with raw strings spanning lines, blank lines and comments
+    "s := `a\r\nbc\r\n\r\nd`\r\ns.len\r\n",
+    "x := [\r\n  `l1\r\nl2`,\r\n  2,\r\n]\r\n# c\r\nx\r\n  |@{|e| e}\r\n  |.len\r\n",
 ]
 
 
@@ -147,7 +150,7 @@ def run():
         ts = toks_of(base[f"t{i}"])
         offs = offsets(src)
         b = src.encode()
-        for ch in rng.sample(CHUNKS, nchunk):
+        for ch in (CHUNKS if i >= ncorpus else rng.sample(CHUNKS, nchunk)):      # generated programs: every schedule
             rid = f"c{i}.{len(reqs)}"
             reqs.append({"id": rid + "t", "mode": "tokens", "src": src, "chunks": ch})
             reqs.append({"id": rid + "a", "mode": "parse", "src": src, "chunks": ch})
